@@ -655,4 +655,7 @@ class _ControlData:  # Currently Unused
     h: Optional[int] = None
 
 
-_stdout_write = sys.stdout.write
+def _stdout_write(string: str) -> int:
+    # `sys.stdout` is looked up upon every call; it may have been replaced since this
+    # module was imported, and everything else is written to the current one.
+    return sys.stdout.write(string)
